@@ -84,29 +84,37 @@ Qed.
 Lemma xcmp_some : forall x y rx ry, xr_of x = Some rx -> xr_of y = Some ry -> exists c, xcmp x y = Some c.
 Proof. intros [|s1|m1 e1] [|s2|m2 e2] rx ry Hx Hy; simpl in *; try discriminate; eauto. Qed.
 
-(* what the reference tests reject, as a function of the three-way comparison value ? bound *)
+(* what Min / Max reject, as a function of the three-way comparison value ? bound; None = unordered (NaN),
+   which satisfies no bound *)
 Definition min_ref (incl : bool) (c : option comparison) : bool :=
-  match c with Some Lt => true | Some Eq => negb incl | _ => false end.
+  match c with Some Gt => false | Some Eq => negb incl | _ => true end.
 Definition max_ref (incl : bool) (c : option comparison) : bool :=
-  match c with Some Gt => true | Some Eq => negb incl | _ => false end.
+  match c with Some Lt => false | Some Eq => negb incl | _ => true end.
 
-(* for all numbers that are not NaN: value >= bound (resp. >) exactly when the three-way comparison is not rejected *)
-Lemma sat_min_cmp : forall v b x y rx ry incl,
-  num_view v = Some x -> num_view b = Some y -> xr_of x = Some rx -> xr_of y = Some ry ->
+Lemma xcmp_none : forall x y, xr_of x = None \/ xr_of y = None -> xcmp x y = None.
+Proof. intros [|s1|m1 e1] [|s2|m2 e2] [H|H]; simpl in *; try discriminate; reflexivity. Qed.
+
+(* for ALL numbers (NaN included): value >= bound (resp. >) exactly when the three-way comparison is not rejected *)
+Lemma sat_min_cmp : forall v b x y incl,
+  num_view v = Some x -> num_view b = Some y ->
   sat_min b incl v = negb (min_ref incl (xcmp x y)).
 Proof.
-  intros v b x y rx ry incl Vx Vy Hx Hy. unfold sat_min. rewrite !real_of_view, Vx, Vy, Hx, Hy.
+  intros v b x y incl Vx Vy. unfold sat_min. rewrite !real_of_view, Vx, Vy.
+  destruct (xr_of x) as [rx|] eqn:Hx; [|now rewrite (xcmp_none x y (or_introl Hx))].
+  destruct (xr_of y) as [ry|] eqn:Hy; [|now rewrite (xcmp_none x y (or_intror Hy))].
   destruct (xcmp_some x y rx ry Hx Hy) as [c Hc]. rewrite Hc.
   assert (Hc' : xcmp y x = Some (CompOpp c)) by (rewrite xcmp_antisym, Hc; reflexivity).
   unfold xr_lt. rewrite (xr_le_cmp y x ry rx _ Hy Hx Hc'), (xr_le_cmp x y rx ry _ Hx Hy Hc).
   destruct incl, c; reflexivity.
 Qed.
 
-Lemma sat_max_cmp : forall v b x y rx ry incl,
-  num_view v = Some x -> num_view b = Some y -> xr_of x = Some rx -> xr_of y = Some ry ->
+Lemma sat_max_cmp : forall v b x y incl,
+  num_view v = Some x -> num_view b = Some y ->
   sat_max b incl v = negb (max_ref incl (xcmp x y)).
 Proof.
-  intros v b x y rx ry incl Vx Vy Hx Hy. unfold sat_max. rewrite !real_of_view, Vx, Vy, Hx, Hy.
+  intros v b x y incl Vx Vy. unfold sat_max. rewrite !real_of_view, Vx, Vy.
+  destruct (xr_of x) as [rx|] eqn:Hx; [|now rewrite (xcmp_none x y (or_introl Hx))].
+  destruct (xr_of y) as [ry|] eqn:Hy; [|now rewrite (xcmp_none x y (or_intror Hy))].
   destruct (xcmp_some x y rx ry Hx Hy) as [c Hc]. rewrite Hc.
   assert (Hc' : xcmp y x = Some (CompOpp c)) by (rewrite xcmp_antisym, Hc; reflexivity).
   unfold xr_lt. rewrite (xr_le_cmp y x ry rx _ Hy Hx Hc'), (xr_le_cmp x y rx ry _ Hx Hy Hc).
@@ -133,6 +141,15 @@ Lemma xcmp_nan_r : forall v x y, num_view v = Some y -> is_nan v = true -> xcmp 
 Proof.
   intros [ | b | z | f | | | | | | | ] x y H N; try discriminate. destruct f; try discriminate.
   injection H as <-. now destruct x.
+Qed.
+
+(* NaN satisfies no bound *)
+Lemma sat_nan : forall b incl v, is_nan v || is_nan b = true -> sat_min b incl v = false /\ sat_max b incl v = false.
+Proof.
+  intros b incl v H. unfold sat_min, sat_max.
+  apply orb_true_iff in H as [H|H].
+  - destruct v; try discriminate. destruct f; try discriminate. split; reflexivity.
+  - destruct b; try discriminate. destruct f; try discriminate. split; destruct (real_of v); reflexivity.
 Qed.
 
 (* ---------- strip ------------------------------------------------------------------------------------- *)
@@ -291,9 +308,15 @@ Proof.
   intro H. apply andb_true_iff in H as [H1 H2]. now rewrite (dec_char_lower _ H1), IHl.
 Qed.
 
-(* int(str(z)) = z on the modelled parser, whatever the oracles say *)
-Theorem int_of_show : forall O z, py_int_of_str O (show_Z z) = Ok z.
-Proof. intros O z. unfold py_int_of_str. now rewrite show_Z_num_strip, parse_show. Qed.
+(* whenever str(z) succeeds, int() reads it back - whatever the oracles say; beyond the digit limit str(z) fails *)
+Theorem int_of_show : forall O z s, str_of_int z = Ok s -> py_int_of_str O s = Ok z.
+Proof.
+  intros O z s H. unfold str_of_int in H. destruct (over_limit (show_Z z)) eqn:L; [discriminate|].
+  injection H as <-. unfold py_int_of_str, int_of_canonical. now rewrite show_Z_num_strip, parse_show, L.
+Qed.
+
+Lemma str_of_int_cases : forall z, str_of_int z = Ok (show_Z z) \/ str_of_int z = Raise ValueErrorC.
+Proof. intro z. unfold str_of_int. destruct (over_limit (show_Z z)); auto. Qed.
 
 (* ---------- the documented order on ints, spelled out ---------------------------------------------------- *)
 Lemma sat_min_int : forall b z incl, sat_min (VInt b) incl (VInt z) = if incl then b <=? z else b <? z.
